@@ -6,7 +6,18 @@ import (
 	"errors"
 )
 
+// jsonVisitor 记录当前序列化路径上的容器(以底层数据指针为准)，用于检测循环引用。
+// 注意数组/字典被赋值或存入其他容器时 VMValue 会被复制，但底层数据是同一份，因此不能以 *VMValue 判断；
+// 同一个容器被引用两次(非循环)是允许的，所以只看"当前路径"。save 参数仅为兼容旧签名而保留
+type jsonVisitor struct {
+	onPath map[any]bool
+}
+
 func (v *VMValue) ToJSONRaw(save map[*VMValue]bool) ([]byte, error) {
+	return v.toJSONVisit(save, &jsonVisitor{onPath: map[any]bool{}})
+}
+
+func (v *VMValue) toJSONVisit(save map[*VMValue]bool, vis *jsonVisitor) ([]byte, error) {
 	if v == nil {
 		return nil, errors.New("nil pointer")
 	}
@@ -35,7 +46,7 @@ func (v *VMValue) ToJSONRaw(save map[*VMValue]bool) ([]byte, error) {
 		x.TypeId = v.TypeId
 		x.Value.Expr = cd.Expr
 		if cd.Attrs != nil {
-			attrJson, err := cd.Attrs.ToJSON()
+			attrJson, err := cd.Attrs.toJSONVisit(save, vis)
 			if err != nil {
 				return nil, err
 			}
@@ -44,17 +55,15 @@ func (v *VMValue) ToJSONRaw(save map[*VMValue]bool) ([]byte, error) {
 		return json.Marshal(x)
 
 	case VMTypeArray:
-		if save == nil {
-			save = map[*VMValue]bool{}
-		}
-		if _, exists := save[v]; exists {
+		ad, _ := v.ReadArray()
+		if vis.onPath[ad] {
 			return nil, errors.New("值错误: 序列化时检测到循环引用")
 		}
-		save[v] = true
-		ad, _ := v.ReadArray()
+		vis.onPath[ad] = true
+		defer delete(vis.onPath, ad)
 		lst := [][]byte{}
 		for _, i := range ad.List {
-			json_data, err := i.ToJSONRaw(save)
+			json_data, err := i.toJSONVisit(save, vis)
 			if err != nil {
 				return nil, err
 			}
@@ -68,16 +77,14 @@ func (v *VMValue) ToJSONRaw(save map[*VMValue]bool) ([]byte, error) {
 		return bytes.Join(lst2, []byte("")), nil
 
 	case VMTypeDict:
-		if save == nil {
-			save = map[*VMValue]bool{}
-		}
-		if _, exists := save[v]; exists {
+		cd := v.MustReadDictData()
+		if vis.onPath[cd] {
 			return nil, errors.New("值错误: 序列化时检测到循环引用")
 		}
-		save[v] = true
-		cd := v.MustReadDictData()
+		vis.onPath[cd] = true
+		defer delete(vis.onPath, cd)
 
-		dictJson, err := cd.Dict.ToJSON()
+		dictJson, err := cd.Dict.toJSONVisit(save, vis)
 		if err != nil {
 			return nil, err
 		}
